@@ -31,7 +31,11 @@
 #include "download/download_main.h"
 #include "protocol/initial_seed.h"
 #include "protocol/peer_connection_base.h"
+#include "net/throttle_list.h"
+#include "net/throttle_node.h"
 #include "torrent/exceptions.h"
+#include "torrent/throttle.h"
+#include "torrent/torrent.h"
 
 using namespace ltv;
 
@@ -77,6 +81,19 @@ static std::string show_piece(uint32_t i, uint32_t b, uint32_t l) {
   return std::to_string(i) + ":" + std::to_string(b) + ":" + std::to_string(l);
 }
 
+// Upload throttle as this connection's node sees it: "on:min:nq:un:uu" (observation fed to the model as
+// op T) or, in a snapshot, "/t<nq>:<un>:<uu>" when enabled. A node that is not in the active part of the
+// list has less than the minimum chunk available (update_quota activates it as soon as it can give that much).
+static std::string throttle_text(torrent::PeerConnectionBase* pcb, bool snap) {
+  auto* tl = pcb->m_up->throttle();
+  auto* node = pcb->m_peer_chunks.upload_throttle();
+  bool on = tl->is_enabled();
+  uint64_t nq = node->quota(), un = tl->unallocated_quota(), uu = tl->m_unusedUnthrottledQuota;
+  if (snap) return on ? "/t" + std::to_string(nq) + ":" + std::to_string(un) + ":" + std::to_string(uu) : std::string();
+  return std::string(on ? "1" : "0") + ":" + std::to_string(tl->min_chunk_size()) + ":" + std::to_string(nq) + ":" +
+         std::to_string(un) + ":" + std::to_string(uu);
+}
+
 static std::string snapshot(Session& S, Torrent* T, const std::string& ip, uint16_t port, bool enc) {
   torrent::PeerConnectionBase* pcb = S.find_connection(T, ip, port);
   if (pcb == nullptr) return "X";
@@ -94,10 +111,81 @@ static std::string snapshot(Session& S, Torrent* T, const std::string& ip, uint1
                                                        std::to_string(pcb->m_encrypt_buffer->size_end())
                                                    : std::string("/e-")) : std::string()) +
          "/c" + (pcb->m_up_chunk.is_valid() ? std::to_string(pcb->m_up_chunk.index()) : std::string("-")) +
-         "r" + std::to_string(S.chunk_refs_total(T));
+         "r" + std::to_string(S.chunk_refs_total(T)) + throttle_text(pcb, true);
+}
+
+
+// PROBE: the policy of the compiled code where the property leaves it open (ROBUSTNESS.md rule 3/4): no
+// source text is read. One plain incoming connection on a torrent with 512 KiB pieces and one piece that
+// does not verify; the writer is blocked (send budget 0) so that accepted requests stay in the queue.
+//   q   = queue limit: 4200 one-byte requests are sent; accepted = queue size + the one the writer popped
+//   ll  = largest accepted REQUEST length (bisection over 1 .. 524288, all in range of piece 0)
+//   ei  = 1 iff a request failing is_valid_piece (index = piece count) is NOT queued
+//   eu  = 1 iff a request for the unverified piece is NOT queued
+static std::string run_probe(Session& S) {
+  TorrentSpec spec;
+  spec.name = "c05_probe";
+  spec.piece_length = 524288;
+  spec.content_seed = 9;
+  spec.files = {{"p0.bin", 600000}, {"d/p1.bin", 600000}};
+  spec.corrupt_pieces = {2};
+  Torrent* T = S.add_torrent(spec);
+  S.start(T);
+  S.advance_us(1000000);
+  S.avoid_tick_within(5 * 1000000);
+  WirePeer P;
+  if (!P.connect_to(S.listen_port(), "127.102.0.1", 1 << 20, 0)) return "ERR:connect";
+  P.send_bytes(WirePeer::handshake(T->info_hash, "-LV0001-probe0000000") + WirePeer::keepalive());
+  pump(S, {&P});
+  uint16_t port = P.local_port();
+  std::string lip = P.local_ip();
+  if (S.find_connection(T, lip, port) == nullptr) return "ERR:noconn";
+  Session::set_send_budget(lip, port, 0);
+  auto qsize = [&]() -> long {
+    torrent::PeerConnectionBase* pcb = S.find_connection(T, lip, port);
+    return pcb == nullptr ? -1 : (long)pcb->m_peer_chunks.upload_queue()->size();
+  };
+  auto send = [&](const std::string& m) { P.send_bytes(m); pump(S, {&P}); };
+  // unchoke; the first request is popped into the (blocked) message buffer
+  send(WirePeer::interested() + WirePeer::request(0, 0, 1));
+  if (qsize() != 0) return "ERR:probe-setup";
+  auto accepted = [&](uint32_t i, uint32_t b, uint32_t l) -> int {
+    long before = qsize();
+    send(WirePeer::request(i, b, l));
+    long after = qsize();
+    if (after < 0) return -1;
+    if (after > before) send(WirePeer::cancel(i, b, l));
+    return after > before ? 1 : 0;
+  };
+  uint32_t lo = 1, hi = 524288;   // invariant: lo accepted (or nothing is), answer in [lo, hi]
+  if (accepted(0, 0, 1 + 1) != 1) return "ERR:probe-len";
+  if (accepted(0, 0, hi) == 1) lo = hi;
+  while (lo < hi) {
+    uint32_t mid = lo + (hi - lo + 1) / 2;
+    int a = accepted(0, 0, mid);
+    if (a < 0) return "ERR:probe-closed";
+    if (a == 1) lo = mid; else hi = mid - 1;
+  }
+  int ei = accepted(T->piece_count(), 0, 1), eu = accepted(2, 0, 16);
+  if (ei < 0 || eu < 0) return "ERR:probe-closed";
+  std::string many;
+  for (uint32_t j = 0; j < 4200; j++) many += WirePeer::request(1, j, 1);
+  long base = qsize();
+  send(many);
+  long q = qsize();
+  if (q < 0) return "ERR:probe-closed";
+  std::string out = "q=" + std::to_string(base > 0 ? q : q + 0) + " ll=" + std::to_string(lo) + " ei=" + std::to_string(ei ? 0 : 1) +
+                    " eu=" + std::to_string(eu ? 0 : 1);
+  Session::clear_io_limits();
+  P.close_all();
+  pump(S, {});
+  S.remove(T);
+  return out;
 }
 
 static std::string run_case(Session& S, const std::string& line) {
+  CaseWatchdog watchdog(line.compare(0, 5, "PROBE") == 0 ? 120 : 30);
+  if (line.compare(0, 5, "PROBE") == 0) return run_probe(S);
   size_t bar = line.find('|');
   if (bar == std::string::npos) return "BADCASE";
   std::map<std::string, std::string> kv;
@@ -166,7 +254,16 @@ static std::string run_case(Session& S, const std::string& line) {
   if (!R.rx.empty()) return "ERR:prelude";
   Session::set_send_budget(lip, port, 0);
 
-  std::string batch, snaps, err;
+  // rate=<bytes/s>: real upload Throttle with that max rate. Quota is granted only by the Q:<n> op
+  // (ThrottleList::update_quota, what Throttle::receive_tick calls); no virtual time passes in such a case.
+  uint64_t rate = kv.count("rate") ? std::stoull(kv["rate"]) : 0;
+  struct RateGuard {
+    uint64_t r;
+    explicit RateGuard(uint64_t x) : r(x) { if (r) torrent::up_throttle_global()->set_max_rate(r); }
+    ~RateGuard() { if (r) torrent::up_throttle_global()->set_max_rate(0); }
+  } rate_guard(rate);
+
+  std::string batch, snaps, err, thr_obs;
   for (auto& o : ops) {
     char kind = o.empty() ? '?' : o[0];
     if (kind == 'R' || kind == 'C') {
@@ -198,12 +295,24 @@ static std::string run_case(Session& S, const std::string& line) {
         S.force_choke(pcb, true);
         if (!pcb->m_up_choke.choked()) err = "ERR:choke-not-applied";
       }
+    } else if (o == "K") {
+      // keep-alive tick: what DownloadWrapper::receive_tick does for every connection when ticks % 4 == 0
+      if (!batch.empty()) return "BADCASE:K-after-message";
+      torrent::PeerConnectionBase* pcb = S.find_connection(T, lip, port);
+      if (pcb != nullptr && !pcb->receive_keepalive()) err = "ERR:keepalive-timeout";
+    } else if (kind == 'Q') {
+      if (rate == 0) return "BADCASE:Q-without-rate";
+      torrent::up_throttle_global()->throttle_list()->update_quota((uint32_t)std::stoul(o.substr(2)));
     } else if (kind == 'W') {
       int64_t k = o == "W:inf" ? (1ll << 40) : std::stoll(o.substr(2));
       P.tx_pending += seal(batch);
       batch.clear();
       for (int i = 0; i < 1000 && !P.tx_pending.empty(); i++) P.flush();
       if (!P.tx_pending.empty() && !P.eof) return "ERR:batch-does-not-fit";
+      {
+        torrent::PeerConnectionBase* pcb = S.find_connection(T, lip, port);
+        thr_obs += (thr_obs.empty() ? "" : ",") + (pcb != nullptr ? throttle_text(pcb, false) : std::string("0:0:0:0:0"));
+      }
       Session::set_send_budget(lip, port, k);
       pump(S, {&P});
       absorb();
@@ -228,7 +337,10 @@ static std::string run_case(Session& S, const std::string& line) {
     if (!R.next_message(m)) break;
     size_t raw_len = before.size() - R.rx.size();
     bool keep = false;
-    if (m.id == WirePeer::CHOKE || m.id == WirePeer::UNCHOKE) {
+    if (m.id == -1) {
+      keep = true;
+      msgs += std::string(msgs.empty() ? "" : ",") + "K";
+    } else if (m.id == WirePeer::CHOKE || m.id == WirePeer::UNCHOKE) {
       keep = true;
       msgs += std::string(msgs.empty() ? "" : ",") + (m.id == WirePeer::CHOKE ? "C1" : "C0");
     } else if (m.id == WirePeer::PIECE && m.body.size() >= 8) {
@@ -255,7 +367,8 @@ static std::string run_case(Session& S, const std::string& line) {
                     " q=" + (closed ? std::string("X") : S.dump_upload_queue(pcb));
   if (!R.rx.empty()) out += " trail=" + std::to_string(R.rx.size());
   if (!err.empty()) out += " " + err;
-  out += " || pay=" + (pay.empty() ? "-" : pay) + " other=" + std::to_string(other) + " have=" + (haves.empty() ? std::string("-") : haves) + " eof=" + std::to_string(P.eof ? 1 : 0);
+  out += " || pay=" + (pay.empty() ? "-" : pay) + " other=" + std::to_string(other) + " have=" + (haves.empty() ? std::string("-") : haves) + " eof=" + std::to_string(P.eof ? 1 : 0) +
+         " thr=" + (rate ? thr_obs : std::string("-"));
 
   // tear the connection down before the next case; afterwards no chunk reference may be left
   P.close_all();
